@@ -20,10 +20,10 @@ func isAddCaveat(n string) bool       { return strings.HasSuffix(n, "Macaroon).A
 func checkC20(c *fw.Ctx) {
 	c.Explanation = "C20 (static): ValidateToken's success is gated on decoding, VerifySignature under the configured secret and verifyCaveats for the configured user (arguments followed through extracted helpers); the caveat verifier's accumulator is extracted: each of the three required caveat classes (generation, user, expiry) contributes its own bit under its own condition, the success constant equals the OR of exactly those bits and the 'unknown caveat' bit lies outside it (a counting accumulator is refused: repeating one class reaches the count); issuer and validator use the same caveat constants, the issued caveats derive from the generation constant, the user prefix + the given user and the time prefix + clock; the macaroon id is the user id that GetUserFromToken returns; both sides read the absolute clock (time.Now().Unix(), no rounding or field accessors) and the 120 s default applies iff no duration was given; the expiry comparison is strict."
 	c.NotDecidedClause("HMAC soundness of the macaroon library; behaviour at particular instants; that the duration is added unscaled")
-	c.NotDecidedClause("known and outside this check: one satisfied time caveat suffices (a holder may append a later one); a non-matching extra user_id caveat is ignored")
 	c20Gates(c)
 	c20Mask(c)
 	c20Expiry(c)
+	c20FailingCaveat(c)
 	c20Issuer(c)
 	c20Clock(c)
 	c20Fresh(c)
